@@ -1295,7 +1295,7 @@ func (fc *fnCtx) enterLoop(li *loopInfo, st *State) {
 	fc.top.curPos = token.NoPos
 	defer func() { fc.top.curLoop = nil }()
 	// the function's frame holds on entry to the loop (needed by the framed havoc below)
-	if fc.contract != nil && fc.contract.HasMod {
+	if fc.contract != nil && fc.contract.HasMod && fc.contract.AssumeFrame == "" {
 		fc.loopFrameObligations(li, st, "entry")
 	}
 	// 2. havoc
@@ -1417,7 +1417,7 @@ func (fc *fnCtx) closeLoop(li *loopInfo, st *State, from *ssa.BasicBlock) {
 	fc.top.curLoop = li
 	fc.top.curPos = token.NoPos
 	defer func() { fc.top.curLoop = nil }()
-	if fc.contract != nil && fc.contract.HasMod && li.hdrState != nil && fc.top.framedBases[li.hdrState.heapBase] {
+	if fc.contract != nil && fc.contract.HasMod && fc.contract.AssumeFrame == "" && li.hdrState != nil && fc.top.framedBases[li.hdrState.heapBase] {
 		fc.loopFrameObligations(li, st, "preserved")
 	}
 	if li.spec == nil {
